@@ -37,6 +37,7 @@ func (c07) Cases(tier string, seed int64, kf *KnownFindings) []Case {
 	add(Case{Kind: "i64table"})
 	add(Case{Kind: "bulk", Seed: Mix(seed, 4242)})
 	add(Case{Kind: "samename", Seed: Mix(seed, 4343), Count: 60})
+	add(Case{Kind: "widths", Seed: Mix(seed, 4344), Count: 120})
 	if tier == "quick" {
 		// 64 windows of 2^12 around spread points + random samples
 		r := rand.New(rand.NewSource(seed))
@@ -127,6 +128,21 @@ func (s *scalarStream) rt(v interface{}) (wire []byte, out interface{}, encErr, 
 	out, decErr = s.d.ReadObject()
 	consumed = s.r.Off
 	return
+}
+
+type c07Leaf struct {
+	V int64
+	W int32
+}
+
+type c07Refs struct {
+	L     []int32
+	A     *c07Leaf
+	M     []int64
+	U     []uint16
+	B     *c07Leaf
+	Again *c07Leaf
+	List  []*c07Leaf
 }
 
 func (c07) Run(c Case, env *Env) Result {
@@ -307,6 +323,83 @@ func (c07) Run(c Case, env *Env) Result {
 	case "bulk":
 		bulkCheck(env, &res, c, "int")
 		res.Sample(map[string]interface{}{"kind": "bulk", "what": "long lists of longs/ints and scalars behind 4070..4100 bytes of padding"})
+	case "widths":
+		// integer lists of SEVERAL widths side by side in one class (one type map holds them all), each filled
+		// with values up to the limits of its own width; and integer lists in front of shared pointers whose
+		// targets hold integers (a list takes a reference number like any container)
+		r := rand.New(rand.NewSource(c.Seed))
+		for j := 0; j < c.Count; j++ {
+			var v interface{}
+			feats := []string{"int-lists-of-several-widths"}
+			if j%2 == 0 {
+				tn := &zoo.TwoNarrow{N: "n"}
+				rv := reflect.ValueOf(tn).Elem()
+				for f := 0; f < rv.NumField(); f++ {
+					if rv.Field(f).Kind() != reflect.Slice {
+						continue
+					}
+					n := 1 + r.Intn(5)
+					sl := reflect.MakeSlice(rv.Field(f).Type(), n, n)
+					for i := 0; i < n; i++ {
+						x, beyond := pickInt(r, sl.Type().Elem())
+						if !beyond {
+							sl.Index(i).Set(x)
+						}
+					}
+					// the limits of the width
+					bits := uint(sl.Type().Elem().Bits())
+					if k := sl.Type().Elem().Kind(); k >= reflect.Int && k <= reflect.Int64 && bits <= 32 {
+						sl.Index(0).SetInt(1<<(bits-1) - 1)
+						if n > 1 {
+							sl.Index(1).SetInt(-1 << (bits - 1))
+						}
+					} else if k == reflect.Uint16 {
+						sl.Index(0).SetUint(1<<16 - 1)
+					}
+					rv.Field(f).Set(sl)
+				}
+				v = tn
+			} else {
+				a, b := &c07Leaf{V: -9007199254740993 + int64(j), W: -262145}, &c07Leaf{V: 1 << 40, W: 2147483647}
+				v = &c07Refs{L: []int32{int32(j), 70000}, A: b, M: []int64{1 << 50}, U: []uint16{65535}, B: a, Again: a, List: []*c07Leaf{b, a}}
+				feats = []string{"int-lists-before-back-references"}
+			}
+			for variant := 0; variant < 2; variant++ {
+				res.Evals++
+				res.NTCount++
+				var o rtOut
+				how := "maps extracted from the value"
+				if variant == 0 {
+					o = roundTrip(v)
+				} else {
+					how = "name map from the value, type map from the type (TypeMapOf)"
+					o.Stage = "encode"
+					o.Panic, _ = Guard(func() {
+						o.Wire, o.EncErr = hessian.ToBytes(v, hessian.NameMapFrom(v))
+						if o.EncErr == nil {
+							o.Stage = "decode"
+							o.Dec, o.DecErr = hessian.ToObject(o.Wire, hessian.TypeMapOf(reflect.TypeOf(v)))
+						}
+					})
+				}
+				switch {
+				case o.Panic != nil:
+					viol(o.Panic.Class, feats, 0, fmt.Sprintf("%s: %s panic %s", how, o.Stage, o.Panic.Msg))
+				case o.EncErr != nil:
+					viol("enc-error", feats, 0, fmt.Sprintf("%s: %v", how, o.EncErr))
+				case o.DecErr != nil:
+					viol("dec-error", feats, 0, fmt.Sprintf("%s (%s): %v", how, hexClip(o.Wire), o.DecErr))
+				default:
+					if d := zoo.Equiv(v, o.Dec, zoo.EquivOpts{}); d != "" {
+						viol("silent-alteration", feats, 0, fmt.Sprintf("%s (%s): %s", how, hexClip(o.Wire), d))
+					} else if d := zoo.SameSharing(v, o.Dec); d != "" {
+						viol("silent-alteration", feats, 0, fmt.Sprintf("%s (%s): %s", how, hexClip(o.Wire), d))
+					}
+				}
+				res.Count(feats[0], 1)
+			}
+		}
+		res.Sample(map[string]interface{}{"kind": "widths", "what": "zoo.TwoNarrow with []int8/[]int16/[]int32/[]int/[]uint16 at their limits; int lists before shared pointers"})
 	case "samename":
 		// two Go struct types with ONE short name (packages zoo and alt4) and other field orders, decoded in one
 		// process, each message with its own maps: integers must land in the field whose NAME they travelled under
